@@ -42,6 +42,13 @@ func runC02(a *Analyzer, r *Results) {
 			if isErrCtor(val) {
 				return
 			}
+			if w := wrappedErr(val); w != nil {
+				// errors.Wrap(err, ..) is nil exactly when err is: a rejection only if err is known to be non-nil here
+				if w.Key() != tNil.Key() && ev.Has(Ne(w, tNil)) != nil {
+					return
+				}
+				val = w
+			}
 			if val.Key() != tNil.Key() && ev.Has(Ne(val, tNil)) != nil {
 				return // passes a known non-nil error through
 			}
